@@ -312,7 +312,8 @@ class Universe:
         if isinstance(t, TRef):
             return self.Ref
         if isinstance(t, TList):
-            return z3.SeqSort(self.sort(t.elem))
+            from . import seqs
+            return seqs.list_sort(self.sort(t.elem))
         if isinstance(t, TSet):
             return z3.ArraySort(self.sort(t.elem), z3.BoolSort())
         if isinstance(t, TMap):
